@@ -374,7 +374,8 @@ def oracle_fine(prop, case, impl):
             st = line.split()[0]
             after_clear = ref.cleared[t]
             owner = 'C04' if (after_clear or name in ('foreach', 'foreach_erase', 'foreach_const', 'clear')) else 'C03'
-            if prop != owner and prop != 'C16':
+            # a resize request that does not return normally is also C19's business
+            if prop != owner and prop != 'C16' and not (prop == 'C19' and name == 'resize'):
                 return None
             return ('%s:%s%s' % (name, st, ':after-clear' if after_clear else ''),
                     'operation %d (%s) ended in %s; expected normal return%s' % (
